@@ -248,11 +248,7 @@ def pad2 (n : Int) : List Int := [digit (n / 10), digit n]
 def pad4 (n : Int) : List Int := [digit (n / 1000), digit (n / 100), digit (n / 10), digit n]
 
 /-- nine fraction digits with trailing zeros removed (RFC3339Nano's `.999999999`) -/
-def trimZeros : List Int → List Int
-  | [] => []
-  | l => if l.getLast? == some 48 then trimZeros l.dropLast else l
-termination_by l => l.length
-decreasing_by simp [List.length_dropLast]; cases l <;> simp_all
+def trimZeros (l : List Int) : List Int := (l.reverse.dropWhile (· == 48)).reverse
 
 def nanoDigits (n : Int) : List Int :=
   [digit (n / 100000000), digit (n / 10000000), digit (n / 1000000), digit (n / 100000), digit (n / 10000),
